@@ -736,3 +736,18 @@ seeded('C18', 'remove() descends with the first element kept in the key', 'R18.1
        [('parameters', "            return self._value[parts[0]].remove(key[key.find('.') + 1:])", "            return self._value[parts[0]].remove(key[key.find('.'):])")], key='remove')
 benign('C18', 'get() descends with the joined rest of the parts',
        [('parameters', "            return self._value[parts[0]].get(key[key.find('.') + 1:])", "            return self._value[parts[0]].get('.'.join(parts[1:]))")])
+
+# ===================================================================================================== round 11 additions
+seeded('C15', 'Pearson5 helper gamma with the scale not inverted', 'R15.11',
+       [('distributions', "        self._dist = DistGamma(stream, self._alpha, 1.0 / self._beta)", "        self._dist = DistGamma(stream, self._alpha, self._beta)")], key='DistPearson5')
+benign('C15', 'Pearson5 helper gamma with the reciprocal named first',
+       [('distributions', "        self._dist = DistGamma(stream, self._alpha, 1.0 / self._beta)", "        rate = self._beta\n        self._dist = DistGamma(stream, self._alpha, 1.0 / rate)")])
+seeded('C11', 'weighted simulation tally accepts plain data events', 'R11.2',
+       [('statistics', "        self._event_types: set[EventType] = {StatEvents.WEIGHT_DATA_EVENT}", "        self._event_types: set[EventType] = {StatEvents.DATA_EVENT}")], key='accepted-type')
+seeded('C14', 'buffered gaussian kept when the same stream is assigned again', 'R14.3',
+       [('distributions', "        super()._set_stream(stream)\n        self._have_saved_gaussian = False  # helper variable",
+         "        same = stream is self.__dict__.get('_stream')\n        super()._set_stream(stream)\n        if same:\n            return\n        self._have_saved_gaussian = False  # helper variable")], key='not-invalidated')
+seeded('C05', 'error class renders its message lazily', 'R5.6',
+       [('simevent', "        except:\n            raise(DSOLError(f\"method {self._method}(..) is not callable \" \\\n                +f\"on {self._target} with arguments {self._kwargs}\"))",
+         "        except:\n            raise _ExecuteError(self)"),
+        ('simevent', "class SimEventInterface(ABC):", "class _ExecuteError(DSOLError):\n    def __init__(self, event):\n        super().__init__(event)\n        self.event = event\n\n    def __str__(self):\n        return f\"method {self.event._method}(..) is not callable on {self.event._target}\"\n\n\nclass SimEventInterface(ABC):")], key='lazy-text')
